@@ -415,8 +415,8 @@ static inline void *L0_malloc(uint64_t bytes) {
   if (g_allow_alloc_fail && nondet_bool()) return (void *)0;
   void *p = malloc(bytes ? bytes : 1);
   __CPROVER_assume(p != (void *)0);
-  /* a fresh block holds no element */
-  if (g_cell_obj == OBJ(p)) __CPROVER_assume(g_cell_st == ST_RAW);
+  /* a fresh block holds no element; a prophetic tracked cell inside it sits on one of its element slots */
+  if (g_cell_obj == OBJ(p)) __CPROVER_assume(g_cell_st == ST_RAW && g_cell_off % ESZ == 0 && g_cell_off + ESZ <= bytes);
   __CPROVER_assume(!(g_tok_on && g_tok_obj == OBJ(p)));
   if (g_blk_obj == OBJ(p)) { __CPROVER_assume(g_blk_state == BLK_NONE); g_blk_state = BLK_ALLOCATED; g_blk_bytes = bytes; }
   g_nalloc++;
@@ -437,7 +437,7 @@ static inline void *L0_realloc(void *p, uint64_t bytes) {
   if (g_allow_alloc_fail && nondet_bool()) return (void *)0;
   void *q = malloc(bytes ? bytes : 1);
   __CPROVER_assume(q != (void *)0);
-  __CPROVER_assume(g_cell_obj != OBJ(q) || g_cell_st == ST_RAW);
+  __CPROVER_assume(g_cell_obj != OBJ(q) || (g_cell_st == ST_RAW && g_cell_off % ESZ == 0 && g_cell_off + ESZ <= bytes));
   __CPROVER_assume(!(g_tok_on && g_tok_obj == OBJ(q)));
   if (p != (void *)0) {
     L0_assert(OFF(p) == 0, "C06: only the start of a block is reallocated");
